@@ -10,6 +10,7 @@ Family == << N("Meters"), N("Feet"), N("Inches"), N("Yards"),
              Sc(N("Feet"), <<BP(6, -1, 1)>>),                         \* ft/3, anonymous, quantity-equivalent to 4 in
              Sc(N("Inches"), <<BP(4, 2, 1)>>),                        \* 4 in
              Sc(N("Meters"), <<BP(7, 1, 1)>>),                        \* pi m (irrational ratio)
+             Sc(N("Meters"), <<BP(6, 1, 1), BP(7, 1, 1), BP(14, -1, 1)>>),   \* (3 pi / 7) m: rational, non-integer ratio to pi m
              Sc(N("Inches"), <<BP(4, 1, 2)>>) >>                      \* sqrt(2) in
 VARIABLES us, perm
 Lists == UNION { [1..n -> 1..Len(Family)] : n \in 2..MaxLen }
